@@ -25,6 +25,7 @@ re-spellings never reach a rule:
       bool()/int()/str()/float() when V is that conversion's fixed point) become `d.get(k, V)`; `.get(k, None)` is `.get(k)`
   N14 a for statement that unpacks its elements (`for a, (b, c) in pairs`) reads them by position instead (one loop variable, a -> v[0],
       c -> v[1][1]); enumerate() and .items() loops keep their unpacked form
+  N15 a local bound once, at the top level of a function, to a plain access path (`func = node.func`) is replaced by that path
 
 Positions are kept (reports still name the original lines).  The transformation is the same for the tree the rules were
 written against and for the tree under analysis, so it can only remove differences, never create one.
@@ -288,6 +289,81 @@ def _as_load(t):
     return c
 
 
+def _chain_root(e):
+    while isinstance(e, (ast.Attribute, ast.Subscript)):
+        e = e.value
+    return e.id if isinstance(e, ast.Name) else None
+
+
+def _plain_chain(e) -> bool:
+    """a.b.c, a.b[0], a['k'].c - names, attributes and constant subscripts only"""
+    if isinstance(e, ast.Name):
+        return True
+    if isinstance(e, ast.Attribute):
+        return _plain_chain(e.value)
+    if isinstance(e, ast.Subscript):
+        return isinstance(e.slice, ast.Constant) and _plain_chain(e.value)
+    return False
+
+
+def _inline_plain_aliases(fn) -> None:
+    """N15: a local bound exactly once, at the top level of the function body, to a plain access path of something that is not re-bound or
+    stored into anywhere in the function (`func = node.func`, `obj = spec.replacement_instance_obj`) is only another name for that path:
+    its uses read the path itself.  Paths rooted at self/cls are left alone (methods called in between may re-bind the attribute)."""
+    import copy
+    for _ in range(4):
+        stores = {}
+        for n in ast.walk(fn):
+            if isinstance(n, ast.Name) and not isinstance(n.ctx, ast.Load):
+                stores[n.id] = stores.get(n.id, 0) + 1
+            elif isinstance(n, ast.arg):
+                stores[n.arg] = stores.get(n.arg, 0) + 1
+            elif isinstance(n, (ast.Global, ast.Nonlocal)):
+                for nm in n.names:
+                    stores[nm] = stores.get(nm, 0) + 2
+        written_paths = set()
+        for n in ast.walk(fn):
+            if isinstance(n, (ast.Attribute, ast.Subscript)) and not isinstance(n.ctx, ast.Load):
+                written_paths.add(_chain_root(n))
+        cand = holder = None
+        blocks = [(fn, "body")]
+        for n in ast.walk(fn):
+            if n is fn or isinstance(n, (ast.FunctionDef, ast.AsyncFunctionDef, ast.ClassDef, ast.Lambda)):
+                continue
+            for fld in ("body", "orelse", "finalbody"):
+                if isinstance(getattr(n, fld, None), list) and getattr(n, fld) and isinstance(getattr(n, fld)[0], ast.stmt):
+                    blocks.append((n, fld))
+        for owner, fld in blocks:
+            lst = getattr(owner, fld)
+            for i, st in enumerate(lst):
+                if isinstance(st, ast.Assign) and len(st.targets) == 1 and isinstance(st.targets[0], ast.Name) and _plain_chain(st.value) \
+                        and not isinstance(st.value, ast.Name):
+                    x, root = st.targets[0].id, _chain_root(st.value)
+                    if stores.get(x) == 1 and root not in ("self", "cls") and stores.get(root, 0) <= 1 and root not in written_paths \
+                            and x not in written_paths and root != x:
+                        # every read of x stands in a later statement of the same block (the binding dominates it)
+                        later = {id(y) for s in lst[i + 1:] for y in ast.walk(s)}
+                        reads = [y for y in ast.walk(fn) if isinstance(y, ast.Name) and y.id == x and isinstance(y.ctx, ast.Load)]
+                        if all(id(y) in later for y in reads):
+                            cand, holder = st, (owner, fld)
+                            break
+            if cand is not None:
+                break
+        if cand is None:
+            return
+        x = cand.targets[0].id
+
+        class R(ast.NodeTransformer):
+            def visit_Name(s, n):
+                if n.id == x and isinstance(n.ctx, ast.Load):
+                    return ast.copy_location(copy.deepcopy(cand.value), n)
+                return n
+        owner, fld = holder
+        new = [R().visit(s) for s in getattr(owner, fld) if s is not cand]
+        setattr(owner, fld, new or [ast.copy_location(ast.Pass(), cand)])
+        ast.fix_missing_locations(fn)
+
+
 class _Norm(ast.NodeTransformer):
     def __init__(self):
         self.fn_stack = []
@@ -311,6 +387,10 @@ class _Norm(ast.NodeTransformer):
                     continue
                 expanded.append(st)
             body = self._get_statements(expanded)
+        for k_, st in enumerate(body):
+            if isinstance(st, (ast.Return, ast.Raise, ast.Continue, ast.Break)):
+                body = body[:k_ + 1]             # nothing after it in this block runs
+                break
         for st in body:
             if _is_quiet_log(st):
                 continue
@@ -434,6 +514,8 @@ class _Norm(ast.NodeTransformer):
 
     def visit_FunctionDef(self, node):
         self.fn_stack.append(node)
+        if len(self.fn_stack) == 1:
+            _inline_plain_aliases(node)
         self.generic_visit(node)
         node.body = self._tail_form(node.body, ast.Return) or [ast.copy_location(ast.Pass(), node)]
         self.fn_stack.pop()
